@@ -29,6 +29,12 @@ pub enum OutState {
     InMissingDir,
     /// named, but is a directory
     IsDirectory,
+    /// named, exists and already holds what this run is expected to write, give or take trailing white space:
+    /// `tail` is appended to (or, when empty, the final newline is cut from) the expected text. Resolved when
+    /// the case is executed; falls back to unrelated content when the input is at fault.
+    ExistingLikeExpected(String),
+    /// named: the character device /dev/null (open and write succeed, nothing is stored)
+    DevNull,
 }
 
 #[derive(Clone, Debug, PartialEq)]
@@ -104,6 +110,8 @@ impl CliCase {
                 OutState::Existing(b) => J::obj().set("existing", bytes_j(b)),
                 OutState::InMissingDir => J::s("in_missing_dir"),
                 OutState::IsDirectory => J::s("is_directory"),
+                OutState::ExistingLikeExpected(t) => J::obj().set("existing_like_expected_plus", J::s(t)),
+                OutState::DevNull => J::s("dev_null"),
             },
         );
         o.put("opt_args", J::Arr(self.opt_args.iter().map(J::s).collect()));
@@ -132,6 +140,8 @@ impl CliCase {
             Some(J::Str(s)) if s == "new" => OutState::New,
             Some(J::Str(s)) if s == "in_missing_dir" => OutState::InMissingDir,
             Some(J::Str(s)) if s == "is_directory" => OutState::IsDirectory,
+            Some(J::Str(s)) if s == "dev_null" => OutState::DevNull,
+            Some(o) if o.get("existing_like_expected_plus").is_some() => OutState::ExistingLikeExpected(o.str_of("existing_like_expected_plus")?),
             Some(o) => OutState::Existing(j_bytes(o.get("existing").ok_or("output")?)?),
             None => return Err("output".into()),
         };
@@ -225,7 +235,8 @@ pub fn shim_path() -> PathBuf {
 fn parse_report(rep: &str, case: &CliCase) -> Fired {
     let mut f = Fired::default();
     let mut last_open_is_output = false;
-    let out_fd_open = |l: &str| l.ends_with(&format!(" path={}", case.output_name)) && !matches!(case.output, OutState::Stdout);
+    let out_name = if matches!(case.output, OutState::DevNull) { "/dev/null".to_string() } else { case.output_name.clone() };
+    let out_fd_open = |l: &str| l.ends_with(&format!(" path={out_name}")) && !matches!(case.output, OutState::Stdout);
     for l in rep.lines() {
         if l.starts_with("call ") {
             f.calls += 1;
@@ -272,6 +283,11 @@ fn parse_report(rep: &str, case: &CliCase) -> Fired {
 
 /// Build the sandbox, run the binary under the shim, observe everything, remove the sandbox.
 pub fn run_cli(case: &CliCase, entropy: u128, sandbox: &Path) -> Result<CliOut, String> {
+    run_cli_with(case, entropy, sandbox, None)
+}
+
+/// `expected`: the text a successful run is expected to write (needed to set up `ExistingLikeExpected`)
+pub fn run_cli_with(case: &CliCase, entropy: u128, sandbox: &Path, expected: Option<&str>) -> Result<CliOut, String> {
     let _ = std::fs::remove_dir_all(sandbox);
     std::fs::create_dir_all(sandbox).map_err(|e| format!("{}: {e}", sandbox.display()))?;
     let inp = sandbox.join(&case.input_name);
@@ -280,10 +296,18 @@ pub fn run_cli(case: &CliCase, entropy: u128, sandbox: &Path) -> Result<CliOut, 
         InState::Missing => {}
         InState::Directory => std::fs::create_dir_all(&inp).map_err(|e| e.to_string())?,
     }
-    let outp = sandbox.join(&case.output_name);
+    let outp = if matches!(case.output, OutState::DevNull) { PathBuf::from("/dev/null") } else { sandbox.join(&case.output_name) };
     match &case.output {
-        OutState::Stdout | OutState::New | OutState::InMissingDir => {}
+        OutState::Stdout | OutState::New | OutState::InMissingDir | OutState::DevNull => {}
         OutState::Existing(b) => std::fs::write(&outp, b).map_err(|e| e.to_string())?,
+        OutState::ExistingLikeExpected(tail) => {
+            let content = match expected {
+                Some(e) if tail.is_empty() => e.trim_end_matches('\n').to_string(),
+                Some(e) => format!("{e}{tail}"),
+                None => "// unrelated older content\n".to_string(),
+            };
+            std::fs::write(&outp, content).map_err(|e| e.to_string())?
+        }
         OutState::IsDirectory => std::fs::create_dir_all(&outp).map_err(|e| e.to_string())?,
     }
     let before = snap(&outp);
@@ -303,8 +327,14 @@ pub fn run_cli(case: &CliCase, entropy: u128, sandbox: &Path) -> Result<CliOut, 
     cmd.env("XSG_SHIM_REPORT", &rp);
     cmd.args(&case.opt_args);
     cmd.arg(&case.input_name);
-    if !matches!(case.output, OutState::Stdout) {
-        cmd.arg(&case.output_name);
+    match case.output {
+        OutState::Stdout => {}
+        OutState::DevNull => {
+            cmd.arg("/dev/null");
+        }
+        _ => {
+            cmd.arg(&case.output_name);
+        }
     }
     cmd.stdin(Stdio::null());
     cmd.stdout(std::fs::File::create(&so).map_err(|e| e.to_string())?);
